@@ -215,6 +215,19 @@ end
 zgneg2 :: fn p do
     (-(p, 1))
 end
+zgdiv :: fn p -> do
+    (p, 1) / 2
+end
+zgdiv2 :: fn p, q -> do
+    (p, 1) / (q, 2)
+end
+zgdiv3 :: fn p do
+    zgd := (p, 1) / 2
+end
+Zs :: blob {
+    n: int,
+    get: fn -> int,
+}
 ZT :: (1, 2)
 Zb :: blob {
     a: int,
@@ -852,6 +865,12 @@ C03_KINDS = {
     "generic-tuple-cmp":  ('zgcmp(true, false)', None),
     "generic-local-tuple-add": (None, ['zglocal("a")']),
     "generic-tuple-neg-unused": (None, ['zgneg2("a")']),
+    # `/` pushed down to tuple components whose type is only known at the call (98fbc93): tuple / scalar, tuple / tuple
+    "generic-tuple-div":        ('zgdiv("a")', None),
+    "generic-tuple-div-pair-r": ('zgdiv2(1, "a")', None),
+    "generic-tuple-div-pair-l": ('zgdiv2(true, 1)', None),
+    "generic-tuple-div-unused": (None, ['zgdiv3("a")']),
+    "ok:generic-tuple-div":     (None, ['zgdiv(1)', 'zgdiv2(1, 2.0)', 'zgdiv3(1.5)', 'zgdiv((1, 2))']),
     "ret-type":       (None, None),      # needs the slot's return type: see c03_plants
 }
 
@@ -905,6 +924,19 @@ C03_KINDS.update({
     "ok:valueless-case-valued": (None, ['zv3 := case ZEV do', '    P x -> x end', '    else 1 end', 'end', 'zv3 + 1']),
 })
 C03_KINDS.update({
+    # `self` inside a method has the type of the instance being created (6a11bb8)
+    "self-field-add":      (None, ['zs5 :: Zs { n: 1, get: fn -> int do self.n + "a" end }']),
+    "self-field-assign":   (None, ['zs5 :: Zs { n: 1, get: fn -> int do', '    self.n = "a"', '    1', 'end }']),
+    "self-field-ret":      (None, ['zs5 :: Zs { n: 1, get: fn -> str do self.n end }']),
+    "self-field-nested":   (None, ['zs5 :: Zs { n: 1, get: fn -> int do', '    zg :: fn -> int do', '        zh :: fn -> int do self.n + "a" end',
+                                   '        zh()', '    end', '    zg()', 'end }']),
+    "self-field-arg":      (None, ['zs5 :: Zs { n: 1, get: fn -> int do', '    zimp(self.get)', 'end }']),
+    "ok:self-field-add":   (None, ['zs5 :: Zs { n: 1, get: fn -> int do self.n + 1 end }']),
+    "ok:self-field-assign": (None, ['zs5 :: Zs { n: 1, get: fn -> int do', '    self.n = 2', '    zimp(self.n)', 'end }']),
+    "ok:self-field-nested": (None, ['zs5 :: Zs { n: 1, get: fn -> int do', '    zg :: fn -> int do', '        zh :: fn -> int do self.n + 1 end',
+                                    '        zh()', '    end', '    zg()', 'end }']),
+})
+C03_KINDS.update({
     # compound assignment on a type without that operator, also with the SAME variable on both sides
     "compound-self-bool-add": (None, ['zc1 := true', 'zc1 += zc1']),
     "compound-self-str-sub":  (None, ['zc2 := "s"', 'zc2 -= zc2']),
@@ -952,8 +984,8 @@ def c03_plants(tmpl, kinds=None):
                         out.append((k, "S", i, info, st))
                     continue
                 if d.get("pure") == "1" and (k in ("loop-cond", "assign-type", "void-store", "param-type", "var-type")
-                                             or k.startswith("compound") or k.startswith("generic")
-                                             or "implicit" in k or "valueless" in k):
+                                             or k.startswith("compound") or "generic" in k
+                                             or "implicit" in k or "valueless" in k or "self-" in k):
                     continue        # mutable definitions / impure calls are rejected in pure functions anyway
                 out.append((k, "S", i, info, st))
         if k == "ret-type":
@@ -1110,6 +1142,19 @@ def c05_plants(tmpl, g, r, kinds=None):
                                  '        break', '    end', '    break', 'end']]
     st["ok:loop-body-break"] = [['loop true do', '    loop (if true do', '        true', '    else do', '        false', '    end) do',
                                  '        break', '    end', '    break', 'end']]
+    # a field the blob does not have, reached through `self` in a method (6a11bb8), also from closures nested in the method
+    hd = 'zs5 :: Zs { n: 1, get: fn -> int do'
+    st["self-absent-field"] = [['zs5 :: Zs { n: 1, get: fn -> int do self.nope_field end }'],
+                               [hd, '    self.nope_field', 'end }'],
+                               [hd, '    zg :: fn -> int do self.nope_field end', '    zg()', 'end }'],
+                               [hd, '    zg :: fn -> int do', '        zh :: fn -> int do self.nope_field end', '        zh()', '    end',
+                                '    zg()', 'end }'],
+                               [hd, '    self.nope_field = 2', '    1', 'end }'],
+                               [hd, '    if self.n == 0 do', '        ret self.nope_field', '    end', '    1', 'end }']]
+    st["ok:self-present-field"] = [['zs5 :: Zs { n: 1, get: fn -> int do self.n + 1 end }'],
+                                   [hd, '    zg :: fn -> int do', '        zh :: fn -> int do self.n + 1 end', '        zh()', '    end',
+                                    '    zg()', 'end }'],
+                                   [hd, '    self.n = 2', '    1', 'end }']]
     ex["tuple-index-range"] = ["ZT[2]", "(1, 2, 3)[7]"]
     st["tuple-length"] = [["zs2: (int, int) = (1, 2, 3)"], ["zs3 := (1, 2)", "zs3 = (1, 2, 3)"]]
     ex["tuple-length"] = ["((1, 2) == (1, 2, 3))"]
@@ -1131,7 +1176,7 @@ def c05_plants(tmpl, g, r, kinds=None):
                 d = info_dict(info)
                 if d["where"] == "global":
                     continue
-                if d.get("pure") == "1" and any(":=" in l or "zcf" in l or "zcg" in l for l in s):
+                if d.get("pure") == "1" and any(":=" in l or "zcf" in l or "zcg" in l or "self." in l for l in s):
                     continue        # mutable definitions / calls of impure local functions are rejected in pure functions anyway
                 out.append((k, "S", i, info, s))
         if k in ("break-outside", "continue-outside"):
